@@ -22,7 +22,7 @@ from symx.explore import Obligation, Raised, call_catching
 hook.install()
 MOD = "props.c15"
 
-HOSTILE = "\"'\\\n\r\t #{}:aNxu0é \x0c\x00"
+HOSTILE = "\"'\\\n\r\t #{}:aNxu0\xe9\u2028\x0c\x00\U0001f600"
 HOSTILE_RANGES = ranges_of_pts([ord(c) for c in HOSTILE])
 
 
